@@ -188,3 +188,51 @@ def r6(rr, repo):
 def r7(rr, repo):
     from .c04 import r6 as c04r6
     c04r6(rr, repo)
+
+
+# socket options that make a send wait for a slow / dead peer instead of dropping for that peer only
+BLOCKING_OPTS = {'XPUB_NODROP': 'a PUB socket that may not drop blocks in send() as soon as ONE subscriber (e.g. a stalled ephemeral listener) reaches its high-water mark',
+                 'IMMEDIATE': 'queues only to completed connections: changes who is counted as a peer',
+                 'SNDTIMEO': 'a send timeout makes the publish blocking (and failing) instead of dropping'}
+KNOWN_OPTS = {'SNDHWM', 'RCVHWM', 'LINGER', 'RECONNECT_IVL', 'RECONNECT_IVL_MAX', 'SUBSCRIBE', 'UNSUBSCRIBE', 'TCP_KEEPALIVE', 'TCP_KEEPALIVE_IDLE', 'TCP_KEEPALIVE_INTVL', 'TCP_KEEPALIVE_CNT',
+              'CONFLATE', 'RCVTIMEO', 'IPV6', 'MAXMSGSIZE', 'SNDBUF', 'RCVBUF', 'BACKLOG', 'HEARTBEAT_IVL', 'HEARTBEAT_TIMEOUT', 'HEARTBEAT_TTL'}
+
+
+@rule('C05.R8', 'a listener that stops reading cannot hold up the publisher: data goes out on PUB sockets with a bounded send queue that DROP for a slow subscriber (no option that turns the publish into a '
+                'blocking call), and requests are pushed without waiting')
+def r8(rr, repo):
+    za = anchors(repo)
+    n = 0
+    for fn, what in ((za.S_init, 'ZMQSender.__init__'), (za.RS_init, 'ZMQReceiver.Sender.__init__')):
+        socks = {}
+        for a in ast.walk(fn):
+            v = a.value if isinstance(a, (ast.Assign, ast.NamedExpr)) else None
+            # x = context.socket(zmq.PUB) / pubs.append(pub := context.socket(zmq.PUB)) / x = ... if cond else None
+            for c in ([v] if v is not None else []):
+                for cc in ast.walk(c):
+                    if isinstance(cc, ast.Call) and isinstance(cc.func, ast.Attribute) and cc.func.attr == 'socket' and cc.args and U(cc.args[0]).startswith('zmq.'):
+                        tg = a.targets if isinstance(a, ast.Assign) else [a.target]
+                        for t in tg:
+                            if isinstance(t, ast.Name):
+                                socks[t.id] = U(cc.args[0])[4:]
+        for c in q.calls_in(fn):
+            if isinstance(c.func, ast.Attribute) and c.func.attr in ('setsockopt', 'setsockopt_string', 'set', 'set_string', 'set_hwm') and isinstance(c.func.value, ast.Name) and c.func.value.id in socks and c.args:
+                kind = socks[c.func.value.id]
+                opt = U(c.args[0])[4:] if U(c.args[0]).startswith('zmq.') else U(c.args[0])
+                n += 1
+                if opt in BLOCKING_OPTS:
+                    rr.violated(f'{what}: the {kind} socket is given {opt}: {BLOCKING_OPTS[opt]}', za.mod, c, witness=U(c)[:100], key=f'sockopt|{kind}|{opt}')
+                elif opt in KNOWN_OPTS:
+                    rr.holds(f'{what}: {kind} socket option {opt} does not make sends wait for a peer', za.mod, c, witness=U(c)[:100], key=f'sockopt|{kind}|{opt}')
+                else:
+                    rr.unresolved(f'{what}: {kind} socket option {opt} is not in the table of options known to keep sends non-blocking', za.mod, c, witness=U(c)[:100], key=f'sockopt|{kind}|{opt}')
+        if 'PUB' in socks.values():
+            hwm = [c for c in q.calls_in(fn) if isinstance(c.func, ast.Attribute) and c.func.attr == 'setsockopt' and isinstance(c.func.value, ast.Name) and socks.get(c.func.value.id) == 'PUB' and c.args and U(c.args[0]) == 'zmq.SNDHWM']
+            rr.ob('the PUB send queue is bounded explicitly (SNDHWM): a stalled subscriber costs a bounded backlog, then its messages are dropped', bool(hwm), za.mod, fn, key='pub-hwm')
+    rr.floor('socket options examined', n, 8, za.mod, za.S_init)
+    # requests / CLOSE / OOB are pushed without waiting
+    sp = [c for c in q.calls_in(za.R_Sender) if isinstance(c.func, ast.Attribute) and c.func.attr == 'send_multipart' and 'push' in U(c.func.value)]
+    rr.floor("push sends", len(sp), 1, za.mod, za.R_Sender)
+    for c in sp:
+        flags = [U(a) for a in c.args[1:]] + [U(k.value) for k in c.keywords if k.arg == 'flags']
+        rr.ob('a request is pushed with DONTWAIT (a dead publisher cannot block the consumer)', any('DONTWAIT' in f or 'NOBLOCK' in f for f in flags), za.mod, c, witness=U(c)[:120], key='push-dontwait')
